@@ -281,6 +281,79 @@ def ps7_dispatch_ok(fn, los, nlos):
     return False
 
 
+def gen_plot_pattern(fn):
+    """_plot_deterministic_path_loss_in_dB_impl: which flags are forced while the curve is drawn, and whether
+    every attribute the helper writes is written back from a copy OF ITSELF, inside a `finally` block"""
+    saved = {}       # variable -> attribute | [attributes]
+    forced = {}      # attribute -> bool literal
+    restored = []    # (target attribute, source attribute, in_finally)
+
+    def self_attr(e):
+        if isinstance(e, ast.Attribute) and isinstance(e.value, ast.Name) and e.value.id == 'self':
+            return e.attr
+        return None
+
+    def visit(stmts, in_finally):
+        for st in stmts:
+            if isinstance(st, ast.Assign) and len(st.targets) == 1:
+                tgt, val = st.targets[0], st.value
+                if isinstance(tgt, ast.Name):
+                    if self_attr(val) is not None:
+                        saved[tgt.id] = self_attr(val)
+                    elif isinstance(val, ast.Tuple) and all(self_attr(x) is not None for x in val.elts):
+                        saved[tgt.id] = [self_attr(x) for x in val.elts]
+                    continue
+                if self_attr(tgt) is not None:
+                    a = self_attr(tgt)
+                    if isinstance(val, ast.Constant) and isinstance(val.value, bool):
+                        forced[a] = val.value
+                    elif isinstance(val, ast.Name) and isinstance(saved.get(val.id), str):
+                        restored.append((a, saved[val.id], in_finally))
+                    else:
+                        raise TranslateError('plot helper: unrecognised write to self.%s' % a)
+                    continue
+                if isinstance(tgt, ast.Tuple) and all(self_attr(x) is not None for x in tgt.elts):
+                    src = saved.get(val.id) if isinstance(val, ast.Name) else (
+                        [self_attr(x) for x in val.elts] if isinstance(val, ast.Tuple) else None)
+                    if isinstance(val, ast.Tuple) and src is not None:
+                        src = [saved.get(x.id) if isinstance(x, ast.Name) else None for x in val.elts]
+                    if not isinstance(src, list) or len(src) != len(tgt.elts) or any(x is None for x in src):
+                        raise TranslateError('plot helper: unrecognised tuple restore')
+                    for t, v in zip(tgt.elts, src):
+                        restored.append((self_attr(t), v, in_finally))
+                    continue
+                raise TranslateError('plot helper: unrecognised assignment')
+            if isinstance(st, ast.AugAssign) and self_attr(st.target) is not None:
+                raise TranslateError('plot helper: augmented write to self.%s' % self_attr(st.target))
+            if isinstance(st, ast.Try):
+                visit(st.body, in_finally)
+                for h in st.handlers:
+                    visit(h.body, in_finally)
+                visit(st.orelse, in_finally)
+                visit(st.finalbody, True)
+            elif isinstance(st, (ast.If, ast.For, ast.While, ast.With)):
+                visit(st.body, in_finally)
+                visit(getattr(st, 'orelse', []), in_finally)
+    visit(strip_doc(fn.body), False)
+    for a in forced:
+        if a not in ('use_shadow_bool', 'handle_small_distances_bool'):
+            raise TranslateError('plot helper forces self.%s' % a)
+    own = all(t == v for t, v, _ in restored) and all(any(t == a for t, _, _ in restored) for a in forced)
+    fin = all(f for _, _, f in restored)
+
+    def opt(a):
+        return 'some %s' % ('true' if forced[a] else 'false') if a in forced else 'none'
+    return ('/-- PathLossBase._plot_deterministic_path_loss_in_dB_impl: flags forced while the curve is computed -/\n'
+            'def plotForcedShadow : Option Bool := %s\n'
+            'def plotForcedSmall : Option Bool := %s\n'
+            '/-- every attribute the helper writes is restored from a saved copy of ITSELF -/\n'
+            'def plotRestoresOwn : Bool := %s\n'
+            '/-- … and the restore statements stand in a `finally` block -/\n'
+            'def plotRestoresInFinally : Bool := %s\n'
+            % (opt('use_shadow_bool'), opt('handle_small_distances_bool'), 'true' if own else 'false',
+               'true' if fin else 'false'))
+
+
 def find_cls(tree, name):
     for n in tree.body:
         if isinstance(n, ast.ClassDef) and n.name == name:
@@ -316,6 +389,8 @@ def gen_c13(repo):
     # ---- util/conversion.py
     out.append(gen_straight(find_fn(cv, 'dB2Linear'), 'dB2Linear', ['valueIndB'], 'conversion.dB2Linear'))
     out.append(gen_straight(find_fn(cv, 'linear2dB'), 'linear2dB', ['valueInLinear'], 'conversion.linear2dB'))
+    # ---- PathLossBase plot helper (a public non-setter that touches the policy flags)
+    out.append(gen_plot_pattern(find_fn(pl, '_plot_deterministic_path_loss_in_dB_impl', 'PathLossBase')))
     # ---- PathLossGeneral
     out.append(gen_straight(find_fn(pl, '_calc_deterministic_path_loss_dB', 'PathLossGeneral'),
                             'generalDb', ['n', 'C', 'd'], 'PathLossGeneral._calc_deterministic_path_loss_dB'))
